@@ -4,7 +4,7 @@ from harness import templates as T
 from harness import docs
 from harness.mutate import mutation, batches
 
-THOROUGH_STRIDE = 4      # the registered thorough tier runs every 4th instance of the full cross product (vp_check.py --tier full runs all)
+THOROUGH_STRIDE = 7      # the registered thorough tier runs every 7th instance of each family of the full cross product (vp_check.py --tier full runs all)
 
 ASSUMPTIONS = [
     'inputs are the six base documents with ONE token (or the inside of one quoted token) replaced by K arbitrary BMP characters '
